@@ -1,0 +1,40 @@
+//go:build verif
+
+// Contracts for the deductive verifier in /verif (govc): trusted summaries of small x/evm/types helpers the ante
+// handlers (app/antedl) call. Comment-only.
+package types
+
+//@ import big "math/big"
+//@ import common "github.com/ethereum/go-ethereum/common"
+
+// (Eip155ChainId / BigInt / chainIdVal: /verif/prelude/44_statedb_evm_types.spec)
+
+// utils.go IsEmptyCodeHash: zero hash or keccak256(nil) (EmptyCodeHash); isEmptyCodeHash: prelude/31_geth_vm.spec
+//@ func IsEmptyCodeHash(codeHash common.Hash) bool
+//@   assumed
+//@   modifies nothing
+//@   ensures result == isEmptyCodeHash(codeHash)
+//@   panics never
+
+//@ import ethtypes "github.com/ethereum/go-ethereum/core/types"
+
+// msg.go (*MsgEthereumTx).ValidateBasic (VERIFIED): From parses as bech32, MarshalledTx decodes, and the decoded transaction
+// passes validateBasic. ethTxBasicValid(b): the facts about the bytes that the ante handlers and fee checkers rely on.
+//@ ghost func ethTxBasicValid(b bytes) bool = 20999 <= decGas(b) && decGas(b) < pow2(63) && 0 <= decFeeCap(b) && decFeeCap(b) < pow2(256) && (decType(b) == 2 ==> (0 <= decTipCap(b) && decTipCap(b) <= decFeeCap(b))) && decFeeCap(b) * decGas(b) < pow2(256)
+//@ func (msg *MsgEthereumTx) ValidateBasic() (err error)
+//@   deterministic[C01.no_node_local_source]
+//@   requires msg != nil
+//@   modifies nothing
+//@   ensures[C05.msg_basic,C06.msg_basic,C07.msg_basic,C09.msg_basic] err == nil ==> (bech32Valid(msg.From) && txDecodable(bytes(msg.MarshalledTx)) && ethTxBasicValid(bytes(msg.MarshalledTx)))
+//@   panics never
+
+// msg.go validateBasic (VERIFIED): what an accepted embedded transaction guarantees to the fee checkers and to the state
+// transition: gas limit in [TxGas-1, MaxInt64], non-negative fee fields below 2^256 with tip cap <= fee cap, and a declared
+// fee (fee cap x gas) below 2^256.
+//@ func validateBasic(ethTx *ethtypes.Transaction) (err error)
+//@   deterministic[C01.no_node_local_source]
+//@   requires ethTx != nil
+//@   modifies nothing
+//@   ensures[C05.basic_gas_bounds,C09.basic_gas_bounds] err == nil ==> (20999 <= txGas(ethTx) && txGas(ethTx) < pow2(63))
+//@   ensures[C05.basic_fee_fields,C09.basic_fee_fields] err == nil ==> (0 <= txFeeCap(ethTx) && txFeeCap(ethTx) < pow2(256) && (txType(ethTx) == 2 ==> (0 <= txTipCap(ethTx) && txTipCap(ethTx) <= txFeeCap(ethTx))) && txFeeCap(ethTx) * txGas(ethTx) < pow2(256))
+//@   panics never
